@@ -102,7 +102,7 @@ def perturb(spec, rng):
 
 def gen_targeted(rng, k):
     """solvable instances aimed at structurally special branches of the LP builder (cycled by k)"""
-    t = k % 8
+    t = k % 9
     if t == 0:      # first-year-only stock regime, horizon past month 12, feed/biofuel charged in every month
         d = gen_spec(rng, ty="to_humans", solvable=True, nmax=16)
         n = rng.randint(15, 20)
@@ -161,6 +161,18 @@ def gen_targeted(rng, k):
         if d["ty"] == "to_humans":
             d["feed_charge"] = [x / 8 for x in d["crops_prod"]]
             d["biofuel_charge"] = [x / 16 for x in d["crops_prod"]]
+    elif t == 8:    # human round with charges, SCP / cellulosic sugar in surplus, binding feed / biofuel share caps
+        d = gen_spec(rng, ty="to_humans", solvable=True, nmax=12)
+        n = d["NM"]
+        d.update(add_scp=True, add_cs=True, add_cr=True, add_sw=False, cap_scp_f=rng.choice([10.0, 30.0]), cap_scp_b=rng.choice([10.0, 30.0]),
+                 cap_cs_f=rng.choice([10.0, 30.0]), cap_cs_b=rng.choice([10.0, 30.0]), cap_scp_h=rng.choice([5.0, 10.0]),
+                 cap_cs_h=rng.choice([5.0, 10.0]), w_scp=0.0, w_cs=0.0)
+        d["need"] = max(d["need"], 500.0)
+        d["crops_prod"] = [dy(rng, 200, 600) for _ in range(n)]
+        d["scp_prod"] = [dy(rng, 100, 300) for _ in range(n)]
+        d["cs_prod"] = [dy(rng, 100, 300) for _ in range(n)]
+        d["feed_charge"] = [dy(rng, 40, 120) for _ in range(n)]
+        d["biofuel_charge"] = [dy(rng, 10, 40) for _ in range(n)]
     else:           # seaweed with growth, harvest needed, moderate caps
         d = gen_spec(rng, ty="to_humans", solvable=True, nmax=10)
         n = d["NM"]
